@@ -271,6 +271,44 @@ template<int LD, bool LS, int RD, bool RS, class Fam = Fam32>
     }
 }
 
+// comparisons only (no arithmetic result type exists beyond 128 digits of built-in storage): operands up to the widest
+// built-in storage, 128 unsigned digits in unsigned __int128
+template<int LD, bool LS, int RD, bool RS, class Fam = Fam32>
+[[gnu::noinline]] void prog_compare_only()
+{
+    using L = EI<LD, LS, Fam>;
+    using R = EI<RD, RS, Fam>;
+    std::string name = std::string("compare_only<") + std::to_string(LD) + (LS ? "s" : "u") + "," + std::to_string(RD) + (RS ? "s" : "u") + ",narrowest" + Fam::name + ">";
+    if (!vf::begin(name, false)) return;
+    auto const As = corners<LD>(LS);
+    auto const Bs = corners<RD>(RS);
+    for (auto const& a : As) {
+        if (!vf::my_row()) continue;
+        for (auto const& b : Bs) {
+            std::string const id = a.str() + "," + b.str();
+            if (vf::replaying() && !vf::case_selected(id)) continue;
+            vf::counted(true);
+            L x = make<L>(a);
+            R y = make<R>(b);
+            int c = Big::cmp(a, b);
+            bool r[12] = {};
+            vf::Outcome o = vf::run([&] {
+                r[0] = x < y; r[1] = x <= y; r[2] = x > y; r[3] = x >= y; r[4] = x == y; r[5] = x != y;
+                r[6] = y < x; r[7] = y <= x; r[8] = y > x; r[9] = y >= x; r[10] = y == x; r[11] = y != x;
+            });
+            vf::validated(12);
+            bool const want[12] = {c < 0, c <= 0, c > 0, c >= 0, c == 0, c != 0, c > 0, c >= 0, c < 0, c <= 0, c == 0, c != 0};
+            bool ok = o.ok();
+            for (int i = 0; i < 12 && ok; ++i) ok = r[i] == want[i];
+            if (!ok) {
+                vf::outcome("bad_compare");
+                vf::violation(std::string("compare/") + (o.ok() ? "value" : o.str()) + (LD == 128 || RD == 128 ? "/widest_storage" : "/other"), id, id + " comparisons disagree with the order of the values" + (o.ok() ? "" : (": " + o.str())));
+            } else
+                vf::outcome("ok_compare");
+        }
+    }
+}
+
 // compile-time loops
 template<int LD, class Fam, int... RDs>
 void values_row(std::integer_sequence<int, RDs...>)
@@ -319,6 +357,15 @@ static void group()
     prog_corners<8, false, 8, false, Fam8>();
     prog_corners<8, false, 7, true, Fam8>();
     prog_corners<8, false, 16, false, Fam16>();
+    // the widest built-in storage: 128 unsigned digits (results of u64 * u64, u127 + u1) compared with other unsigned types
+    // (a signed partner of a 128-digit unsigned elastic_integer has no common type and does not compile)
+    prog_compare_only<128, false, 127, false>();
+    prog_compare_only<127, false, 128, false>();
+    prog_compare_only<128, false, 64, false>();
+    prog_compare_only<128, false, 128, false>();
+    prog_compare_only<128, false, 1, false>();
+    prog_compare_only<127, true, 126, true>();
+    prog_compare_only<127, true, 64, false>();
 #endif
 #elif VF_PART >= 2000
     constexpr int D = VF_PART - 2000;
